@@ -13,7 +13,7 @@ theorem tie_newSession : newSession =
    "s.bind", "if:return", "s.rfc3921Session", "if:return", "s.EnableStreamManagement", "if:return", "return"] := by decide
 
 theorem tie_clientConnect : clientConnect =
-  ["c.transport.Connect", "if:return", "NewSession", "if:go func{…}", "if:c.Disconnect", "if:return",
+  ["c.transport.Connect", "if:return", "NewSession", "if:c.transport.GetDecoder", "if:go func{…}", "if:c.Disconnect", "if:return",
    "c.updateState", "return"] := by decide
 
 theorem tie_connect_resets_secure : transportConnectSecure = ["t.isSecure=false", "net.DialTimeout", "t.StartStream"] := by decide
